@@ -314,3 +314,22 @@ Example C07_effect_links_nonvacuous :
   load_effect_body o (FX [PSurface 61 601 50; PSampler 62 602 61] [77] None)%N = Ok [5; 601; 0]%N /\
   load_effect_body o (FX [PSurface 61 601 51; PSampler 62 602 61] [62] None)%N = Raise DaeBrokenRef.
 Proof. vm_compute. repeat split; reflexivity. Qed.
+
+(* the implicit-surface path: a texture that names no sampler of this effect but the id of a library
+   image is bound to an implicit surface made from THE image carrying that id (identity); a sampler
+   of the scope always wins; a name that is neither a sampler of the scope nor an image id is
+   dropped - never bound to anything (dangling) *)
+Theorem C07_texture_names_image :
+  (forall o sc name iu, bind_texture o sc name = TImplicit iu ->
+     find_sampler sc name = None /\ In (iu, name) (lib_list o LImages)) /\
+  (forall o sc name u, find_sampler sc name = Some u -> bind_texture o sc name = TSampler u) /\
+  (forall o sc name, find_sampler sc name = None -> (forall u, ~ In (u, name) (lib_list o LImages)) ->
+     bind_texture o sc name = TDropped).
+Proof. split; [exact bind_texture_implicit|]. split; [exact bind_texture_sampler_first|exact bind_texture_dropped]. Qed.
+Print Assumptions C07_texture_names_image.
+
+Example C07_texture_names_image_nonvacuous :
+  let o : objs := [(LImages, (5, 50))]%N in
+  bind_texture o [] 50%N = TImplicit 5%N /\ bind_texture o [] 51%N = TDropped /\
+  bind_texture o [(50, ESampler 7 9)]%N 50%N = TSampler 7%N.
+Proof. vm_compute. repeat split; reflexivity. Qed.
